@@ -9,6 +9,7 @@ import (
 	"sort"
 	"strings"
 	"testing"
+	"time"
 
 	grpcApi "github.com/resonatehq/resonate/internal/app/subsystems/api/grpc"
 	"github.com/resonatehq/resonate/internal/app/subsystems/api/grpc/pb"
@@ -230,6 +231,33 @@ type pair struct {
 	grpc         func(s grpcApi.VerifServer) (any, error)
 }
 
+// freq: a name "...@<duration>" means the HTTP front end is configured with that task frequency (the link forms of the
+// task endpoints use it)
+func (p pair) freq() time.Duration {
+	if _, d, ok := strings.Cut(p.name, "@"); ok {
+		if v, err := time.ParseDuration(d); err == nil {
+			return v
+		}
+	}
+	return 0
+}
+
+// the link forms GET /tasks/{claim,complete,heartbeat}/:id/:counter carry no body: the process id is api.TaskProcessId(id,
+// counter) = "id/counter" and the lease is the configured task frequency ("default task frequency", in milliseconds) —
+// the equivalent gRPC request spells both out
+var taskFrequencies = []time.Duration{time.Minute, 5 * time.Second, 1500 * time.Millisecond, 500 * time.Millisecond, 250 * time.Millisecond, time.Millisecond, 90 * time.Minute}
+
+var frontsByFreq = map[time.Duration]*Fronts{}
+
+func frontsFor(freq time.Duration) *Fronts {
+	if f, ok := frontsByFreq[freq]; ok {
+		return f
+	}
+	f := NewFrontsWith(freq)
+	frontsByFreq[freq] = f
+	return f
+}
+
 func pbValue(h map[string]string, d string) *pb.Value {
 	if h == nil && d == "" {
 		return nil
@@ -377,7 +405,24 @@ func genPair(t *rapid.T) pair {
 		delete(hdr, "strict")
 		counter := rapid.IntRange(1, 1000).Draw(t, "counter")
 		ttl := rapid.IntRange(0, 1<<30).Draw(t, "tttl")
-		switch rapid.IntRange(0, 2).Draw(t, "taskop") {
+		switch rapid.IntRange(0, 5).Draw(t, "taskop") {
+		case 3, 4, 5:
+			tid := rapid.SampledFrom([]string{"t1", "task.2", "__invoke:p1", "a-b_c"}).Draw(t, "linkid")
+			freq := rapid.SampledFrom(taskFrequencies).Draw(t, "taskfrequency")
+			pidOf := fmt.Sprintf("%s/%d", tid, counter)
+			switch rapid.IntRange(0, 2).Draw(t, "linkop") {
+			case 0:
+				return pair{"ClaimTask:link@" + freq.String(), "GET", fmt.Sprintf("/tasks/claim/%s/%d", tid, counter), nil, hdr, func(s grpcApi.VerifServer) (any, error) {
+					return s.ClaimTask(ctx, &pb.ClaimTaskRequest{Id: tid, Counter: int32(counter), ProcessId: pidOf, Ttl: int32(freq.Milliseconds()), RequestId: reqId})
+				}}
+			case 1:
+				return pair{"CompleteTask:link@" + freq.String(), "GET", fmt.Sprintf("/tasks/complete/%s/%d", tid, counter), nil, hdr, func(s grpcApi.VerifServer) (any, error) {
+					return s.CompleteTask(ctx, &pb.CompleteTaskRequest{Id: tid, Counter: int32(counter), RequestId: reqId})
+				}}
+			}
+			return pair{"HeartbeatTasks:link@" + freq.String(), "GET", fmt.Sprintf("/tasks/heartbeat/%s/%d", tid, counter), nil, hdr, func(s grpcApi.VerifServer) (any, error) {
+				return s.HeartbeatTasks(ctx, &pb.HeartbeatTasksRequest{ProcessId: pidOf, RequestId: reqId})
+			}}
 		case 0:
 			return pair{"ClaimTask", "POST", "/tasks/claim", map[string]any{"id": id, "counter": counter, "processId": "w 1", "ttl": ttl}, hdr, func(s grpcApi.VerifServer) (any, error) {
 				return s.ClaimTask(ctx, &pb.ClaimTaskRequest{Id: id, Counter: int32(counter), ProcessId: "w 1", Ttl: int32(ttl), RequestId: reqId})
@@ -460,6 +505,10 @@ func equivalence(t *testing.T, f *Fronts, stats *core.Stats, prop string, ops ma
 			rt.Skip("no operation of this property drawn")
 		}
 		stats.Eval()
+		f := f
+		if p.freq() != 0 {
+			f = frontsFor(p.freq())
+		}
 		var captured []*t_api.Request
 		f.Stub.Res = func(r *t_api.Request) (*t_api.Response, error) {
 			captured = append(captured, r)
@@ -495,6 +544,9 @@ func equivalence(t *testing.T, f *Fronts, stats *core.Stats, prop string, ops ma
 			fail("%s: protocol tags %v %v", p.name, captured[0].Tags, captured[1].Tags)
 		}
 		stats.Class("op:" + strings.SplitN(p.name, ":", 2)[0])
+		if strings.Contains(p.name, ":link@") {
+			stats.Class("link-form-with-task-frequency:" + strings.SplitN(p.name, "@", 2)[1])
+		}
 		if len(p.headers) > 0 || strings.Contains(body, "tags") || strings.Contains(body, "headers") {
 			stats.Nontriv(p.name+a, map[string]any{"http": fmt.Sprintf("%s %s %s %v", p.method, p.path, truncate(body, 200), p.headers), "kernel_request": truncate(a, 300)})
 		}
